@@ -88,12 +88,9 @@ fn check_recon(fec: FECEncodingID, l: u64, e: u16, b: u16) -> bool {
         Some(SchemeSpecific::Raptor(s)) => s.source_blocks_length as u64,
         _ => u64::MAX,
     };
-    if z != sender_q.3 {
-        wit("FileDesc::new", input, format!("Z={}", z), "Z == N of block_partitioning(B, L, E)");
+    if z != sender_q.3.max(1) {
+        wit("FileDesc::new", input, format!("Z={}", z), "Z == max(1, N) of block_partitioning(B, L, E)");
         return true;
-    }
-    if l == 0 {
-        return false; // the empty object is its own case (empty_object)
     }
     match fti_roundtrip(&fd.oti, l) {
         Ok(Some((roti, rl))) => {
@@ -140,7 +137,7 @@ fn case_raptor_above_wire(l: u64, e: u16, b: u16) -> bool {
     }
 }
 
-/// the empty object under RaptorQ / Raptor: N == 0 => Z == 0, which both get_fti reject
+/// the empty object under RaptorQ / Raptor: N == 0; Z == 0 is rejected by both get_fti, so FileDesc::new must announce Z >= 1
 fn case_empty_object(fec: FECEncodingID) -> bool {
     let input = format!("{{\"case\":\"empty_object\",\"fec\":{},\"l\":0,\"e\":1400,\"b\":64}}", fec as u8);
     let fd = match FileDesc::new(0, object(0, 0, Some(raptor_family(fec, 1400, 64))), &Oti::default(), None, false) {
